@@ -1,7 +1,7 @@
 (* C01: hole lemmas. For each hole class of the chunk model (Model/C01Emit.v): when the text the
    generator puts into the hole belongs to the class, in terms of the project. *)
 From Coq Require Import String Ascii.
-From Coq Require Import List Arith Bool Lia.
+From Coq Require Import List Arith Bool Lia NArith.
 Require Import TT.Model.Str TT.Model.TypeParse TT.Model.Pipeline.
 Require Import TT.Spec.TsLex TT.Spec.TsModule TT.Spec.TsObs TT.Spec.C01Wf TT.Model.C01Emit.
 Import ListNotations.
@@ -60,6 +60,21 @@ Lemma plain_is_identifier s : plain_ident s = true -> is_ts_identifier s = true.
 Proof. destruct s as [|c s]; [discriminate|]. cbn [plain_ident is_ts_identifier]. intros H. apply andb_true_iff in H as [Hc Hs].
   rewrite (letter_id_start _ Hc). cbn [andb]. rewrite forallb_forall in *. intros x Hx. apply idc_id_char, Hs, Hx. Qed.
 
+(* ASCII strings pass the Unicode table tests trivially *)
+Definition ascii_byte (c : ascii) : bool := (bN c <? 128)%N.
+Lemma uni_ascii ps pc : forall s first, forallb ascii_byte s = true -> uni_walk ps pc first s = true.
+Proof. induction s as [|c s IH]; intros first H; [reflexivity|]. cbn [forallb] in H. apply andb_true_iff in H as [Hc Hs].
+  cbn [uni_walk]. unfold ascii_byte in Hc. rewrite Hc. apply IH, Hs. Qed.
+Lemma idc_ascii c : ascii_idc c = true -> ascii_byte c = true.
+Proof. sweep c. Qed.
+Lemma plain_ascii s : plain_ident s = true -> forallb ascii_byte s = true.
+Proof. destruct s as [|c s]; [discriminate|]. cbn [plain_ident forallb]. intros H. apply andb_true_iff in H as [Hc Hs].
+  rewrite (idc_ascii _ (letter_idc _ Hc)). cbn [andb]. rewrite forallb_forall in *. intros x Hx. apply idc_ascii, Hs, Hx. Qed.
+Lemma plain_is_ident_name s : plain_ident s = true -> is_ident_name s = true.
+Proof. intros H. unfold is_ident_name, uni_ok. rewrite (plain_is_identifier _ H), (uni_ascii _ _ _ _ (plain_ascii _ H)). reflexivity. Qed.
+Lemma plain_rust_ident s : plain_ident s = true -> rust_ident_name s = true.
+Proof. intros H. unfold rust_ident_name. rewrite (plain_is_identifier _ H), (uni_ascii _ _ _ _ (plain_ascii _ H)). reflexivity. Qed.
+
 Definition kebab_rule (r : rule) : bool := match r with RKebab | RScreamingKebab => true | _ => false end.
 
 Lemma apply_rule_plain r s : kebab_rule r = false -> plain_ident s = true -> plain_ident (apply_rule r s) = true.
@@ -76,14 +91,14 @@ Lemma key_hole_no_rename name rename_all dflt :
   hole_ok HKey (serialized name None rename_all dflt) = true.
 Proof. intros Hn Hk. cbn [hole_ok]. unfold key_text_ok, serialized.
   assert (plain_ident (apply_rule (eff_rule rename_all dflt) name) = true) as H by (apply apply_rule_plain; assumption).
-  unfold eff_rule in H. destruct rename_all; rewrite (plain_is_identifier _ H); reflexivity. Qed.
+  unfold eff_rule in H. destruct rename_all; rewrite (plain_is_ident_name _ H); reflexivity. Qed.
 
 Lemma key_bare_no_rename name rename_all dflt :
   plain_ident name = true -> kebab_rule (eff_rule rename_all dflt) = false ->
   key_chunk (serialized name None rename_all dflt) = Hole HKey (serialized name None rename_all dflt).
 Proof. intros Hn Hk. unfold key_chunk, serialized.
   assert (plain_ident (apply_rule (eff_rule rename_all dflt) name) = true) as H by (apply apply_rule_plain; assumption).
-  unfold eff_rule in H. destruct rename_all; rewrite (plain_is_identifier _ H); reflexivity. Qed.
+  unfold eff_rule in H. destruct rename_all; rewrite (plain_rust_ident _ H); reflexivity. Qed.
 
 (* ---------------------------------------------------------------- function-name holes *)
 Definition kf_reserved_fn (name : str) : bool :=
@@ -91,7 +106,7 @@ Definition kf_reserved_fn (name : str) : bool :=
 
 Lemma fn_hole name : plain_ident name = true -> kf_reserved_fn name = false -> hole_ok HFn (camel2 name) = true.
 Proof. intros Hn Hk. cbn [hole_ok]. unfold is_binding_name, kf_reserved_fn in *.
-  rewrite (plain_is_identifier _ (camel2_plain _ Hn)).
+  rewrite (plain_is_ident_name _ (camel2_plain _ Hn)).
   apply orb_false_iff in Hk as [Hk Ha]. apply orb_false_iff in Hk as [Hr He]. rewrite Hr, He, Ha. reflexivity. Qed.
 
 Lemma tyname_hole name suffix :
@@ -102,7 +117,7 @@ Proof. intros Hn Hs Hr He Ha. cbn [hole_ok]. unfold is_binding_name. rewrite Hr,
   assert (plain_ident (pascal true name ++ suffix) = true) as H.
   { pose proof (pascal_plain _ Hn) as Hp. destruct (pascal true name) as [|c r]; [discriminate|].
     cbn [plain_ident app] in *. apply andb_true_iff in Hp as [Hc Hr']. rewrite Hc, forallb_app, Hr', Hs. reflexivity. }
-  rewrite (plain_is_identifier _ H). reflexivity. Qed.
+  rewrite (plain_is_ident_name _ H). reflexivity. Qed.
 
 Lemma fn_hole_refuted :
   hole_ok HFn (camel2 (L "delete")) = false /\ hole_ok HFn (camel2 (unraw (L "r#in"))) = false /\
@@ -137,12 +152,26 @@ Proof. destruct (is_reserved ("o"%char :: "n"%char :: x)) eqn:E; [|reflexivity].
 Lemma on_not_word x (w : string) : starts (L "on") (L w) = false -> str_eqb ("o"%char :: "n"%char :: x) (L w) = false.
 Proof. intros Hw. destruct (str_eqb ("o"%char :: "n"%char :: x) (L w)) eqn:E; [|reflexivity].
   apply str_eqb_eq in E. rewrite <- E, starts_on in Hw. discriminate. Qed.
+Lemma alnum_ascii c : (ascii_alnum c || is_us c) = true -> is_us c = false -> ascii_byte c = true /\ ascii_byte (up c) = true.
+Proof. sweep c. Qed.
+Lemma pascal_ascii : forall s cap, forallb (fun c => ascii_alnum c || is_us c) s = true -> forallb ascii_byte (pascal cap s) = true.
+Proof. induction s as [|c s IH]; intros cap H; [reflexivity|].
+  cbn [forallb] in H. apply andb_true_iff in H as [Hc Hs]. cbn [pascal].
+  destruct (is_us c) eqn:Hu; [apply IH; exact Hs|].
+  assert ((ascii_alnum c || is_us c) = true) as Hc' by (rewrite Hu; exact Hc).
+  destruct (alnum_ascii c Hc' Hu) as [H1 H2].
+  destruct cap; cbn [forallb]; rewrite (IH _ Hs), ?andb_true_r; assumption. Qed.
 Lemma event_fn_hole name : hole_ok HFn (event_fn name) = true.
 Proof. cbn [hole_ok]. unfold event_fn, is_binding_name. change (L "on" ++ ?x) with ("o"%char :: "n"%char :: x).
   rewrite on_not_reserved. rewrite !on_not_word by reflexivity.
-  cbn [negb andb]. rewrite !andb_true_r. cbn [is_ts_identifier]. change (is_id_start "o"%char) with true. cbn [andb forallb].
-  change (is_id_char "n"%char) with true. cbn [andb]. apply pascal_alnum.
-  rewrite forallb_forall. intros c Hc. apply in_map_iff in Hc as [y [<- _]]. apply other_idc. Qed.
+  cbn [negb andb]. rewrite !andb_true_r.
+  assert (forallb (fun c => ascii_alnum c || is_us c) (map us_of_other name) = true) as HA.
+  { rewrite forallb_forall. intros c Hc. apply in_map_iff in Hc as [y [<- _]]. apply other_idc. }
+  unfold is_ident_name, uni_ok. apply andb_true_iff. split.
+  - cbn [is_ts_identifier]. change (is_id_start "o"%char) with true. cbn [andb forallb].
+    change (is_id_char "n"%char) with true. cbn [andb]. apply pascal_alnum. exact HA.
+  - apply uni_ascii. cbn [forallb]. change (ascii_byte "o"%char) with true. change (ascii_byte "n"%char) with true. cbn [andb].
+    apply pascal_ascii. exact HA. Qed.
 Lemma event_fn_example : event_fn (L "user:created/now") = L "onUserCreatedNow" /\ event_fn (L "app://ready") = L "onAppReady".
 Proof. vm_compute. split; reflexivity. Qed.
 
@@ -193,16 +222,28 @@ Lemma str_hole_enum_witness :
   escape_js (scanned (L "a""b")) = L "a\\" /\ hole_ok (HStr DQ) (escape_js (scanned (L "a""b"))) = true.
 Proof. vm_compute. split; reflexivity. Qed.
 
-(* property keys (repaired: ts_key filter): for EVERY byte string the printed key is an identifier name or a
-   well-formed double-quoted literal; likewise the member access *)
-Lemma key_chunk_ok k : holes_ok [key_chunk k] = true.
-Proof. unfold holes_ok, key_chunk. destruct (is_ts_identifier k) eqn:E; cbn [holes flat_map app forallb fst snd].
-  - cbn [hole_ok]. unfold key_text_ok. rewrite E. reflexivity.
+(* property keys (ts_key filter). The filter decides with char::is_alphanumeric, which accepts category No
+   (superscripts, subscripts, fractions, circled numbers): such a name is printed bare although it is not an
+   ECMAScript identifier name. That is the class kf_key_other_number; outside it, for EVERY byte string the printed
+   key is an identifier name or a well-formed double-quoted literal; likewise the member access *)
+Definition kf_key_other_number (k : str) : bool := rust_ident_name k && negb (is_ident_name k).
+Lemma key_chunk_ok k : kf_key_other_number k = false -> holes_ok [key_chunk k] = true.
+Proof. unfold kf_key_other_number, holes_ok, key_chunk. intros Hk. destruct (rust_ident_name k) eqn:E; cbn [holes flat_map app forallb fst snd].
+  - cbn [andb] in Hk. apply negb_false_iff in Hk. cbn [hole_ok]. unfold key_text_ok. rewrite Hk. reflexivity.
   - rewrite str_hole_message. reflexivity. Qed.
-Lemma member_access_ok k : holes_ok (member_access k) = true.
-Proof. unfold holes_ok, member_access. destruct (is_ts_identifier k) eqn:E; cbn [holes flat_map app forallb fst snd F].
-  - cbn [hole_ok]. unfold key_text_ok. rewrite E. reflexivity.
+Lemma member_access_ok k : kf_key_other_number k = false -> holes_ok (member_access k) = true.
+Proof. unfold kf_key_other_number, holes_ok, member_access. intros Hk. destruct (rust_ident_name k) eqn:E; cbn [holes flat_map app forallb fst snd F].
+  - cbn [andb] in Hk. apply negb_false_iff in Hk. cbn [hole_ok]. unfold key_text_ok. rewrite Hk. reflexivity.
   - rewrite str_hole_message. reflexivity. Qed.
+(* ASCII names are never in the class *)
+Lemma key_class_ascii k : forallb ascii_byte k = true -> kf_key_other_number k = false.
+Proof. intros H. unfold kf_key_other_number, rust_ident_name, is_ident_name, uni_ok. rewrite !(uni_ascii _ _ _ _ H), !andb_true_r.
+  destruct (is_ts_identifier k); reflexivity. Qed.
+(* witness of the class: the rename m followed by SUPERSCRIPT TWO (bytes C2 B2) *)
+Definition m_squared : str := ["m"%char; ascii_of_nat 194; ascii_of_nat 178].
+Lemma key_chunk_refuted : kf_key_other_number m_squared = true /\ key_chunk m_squared = Hole HKey m_squared /\ hole_ok HKey m_squared = false /\
+  bad_class HKey m_squared = Some "C01-key-other-number"%string.
+Proof. vm_compute. repeat split. Qed.
 Lemma key_chunk_witnesses :
   key_chunk (serialized (L "full_name") (Some (scanned (L "full-name"))) None (L "snake_case")) = Hole (HStr DQ) (L "full-name") /\
   key_chunk (serialized (L "first_name") None (Some RKebab) (L "snake_case")) = Hole (HStr DQ) (L "first-name") /\
